@@ -79,7 +79,7 @@ func classify(s *Spec, t *Taint, inMark bool) {
 	case "safedetailsnofmt":
 		U(0)
 		Sf(1)
-	case "new", "newf0", "assertf0", "wrapf0", "withmsgf0", "wrap", "withmsg", "wrapferr", "newfwerr", "wrapfgosyntax", "handledmsgf0", "stleaf", "stwrap":
+	case "new", "newf0", "assertf0", "wrapf0", "withmsgf0", "wrap", "withmsg", "wrapferr", "assertwraperr", "newfwerr", "wrapfgosyntax", "handledmsgf0", "stleaf", "stwrap":
 		Sf(0)
 	case "newf", "assertf", "wrapf", "withmsgf", "safedetails", "assertwrap", "newfw", "newfwsuffix", "handledmsgf", "handledsafemsg":
 		Sf(0)
